@@ -52,7 +52,9 @@ class SqliteImpl(SqlImpl):
         elif val_type == Datetime() and cast.target_type == Date():
             return sqa.type_coerce(sqa.func.date(compiled_val), sqa.Date())
         elif val_type == Date() and cast.target_type == Datetime():
-            return sqa.type_coerce(sqa.func.datetime(compiled_val), sqa.DateTime())
+            # the text format SQLAlchemy stores datetimes in (with microseconds), so that
+            # the result compares and prints like a stored datetime
+            return sqa.type_coerce(sqa.func.strftime("%Y-%m-%d %H:%M:%f000", compiled_val), sqa.DateTime())
 
         elif val_type.is_float() and cast.target_type == String():
             return sqa.case(
